@@ -130,6 +130,9 @@ def check(c):
     schema = [x[0] for x in ta.get(tname, [])] if isinstance(ta, dict) else []
     c.ob('C45.restart', 'rundb: absolute_outputs schema = cycle, name, output',
          schema == ['cycle', 'name', 'output'], '', f'schema {schema}')
+    # each (cycle, name, output) triple is its own row (INSERT OR REPLACE)
+    from rules.C19 import primary_keys
+    primary_keys(c, 'C45.restart', only=[tname])
     pi = c.func('workflow_db_mgr',
                 'WorkflowDatabaseManager.put_insert_abs_output')
     dicts = [n for n in c.idx.walk(pi.node) if isinstance(n, ast.Dict)]
